@@ -822,13 +822,19 @@ class SemantivaOrchestrator(ABC):
         for node_def in resolved_spec:
             proc = node_def.get("processor")
 
-            # Resolve class reference
-            if isinstance(proc, str):
-                proc_cls = resolve_symbol(proc)
-            elif isinstance(proc, type):
+            # Resolve class reference. A node that cannot be resolved is NOT an
+            # error here: this pass only feeds the identity metadata of
+            # pipeline_start. The failure is raised by node instantiation, in node
+            # order, exactly as in an untraced run (otherwise a configuration with
+            # two defects fails with a different exception when traced).
+            proc_cls: Any
+            if isinstance(proc, type):
                 proc_cls = proc
             else:
-                raise ValueError(f"Invalid processor specification: {proc}")
+                try:
+                    proc_cls = resolve_symbol(proc) if isinstance(proc, str) else object
+                except Exception:
+                    proc_cls = object
 
             classes.append(proc_cls)
 
